@@ -42,7 +42,7 @@ gen_durregex.register()     # translate.main() regenerates Gen/DurRegex.lean on 
 
 PROP = "C10"
 FOREIGN_FIRST = True
-LEAN_MODULES = ["IsoDT.Props.C10", "IsoDT.Props.C10b"]
+LEAN_MODULES = ["IsoDT.Props.C10", "IsoDT.Props.C10b", "IsoDT.Props.C10c"]
 REQUIRED_THEOREMS = ["IsoDT.Props.C10." + n for n in (
     "C10_roundtrip", "C10_designators", "C10_designators_weeks", "C10_alt", "C10_alt_canonical",
     "C10_str_negative", "C10_roundtrip_counter_beyond_binary64", "C10_mixed_sign_unparseable_example")]
@@ -1222,5 +1222,6 @@ def ops():
     import common
     common.foreign_configurations()
     import durtextqops
+    import daltops
     return [DStr(), DRoundTrip(), DRoundTripEq(), DParse(), DAlt(), DAltReduced(), DRegex(), F64(), DFloat(), DFParse(),
-            durtextqops.DurTextQOp()]
+            durtextqops.DurTextQOp(), daltops.DAltQOp()]
